@@ -48,3 +48,16 @@ MANIFEST_ENTRY = dict(
     technique='CBMC contracts: exp by complete unwinding against the square-and-multiply recurrence (uninterpreted product) + Lean lemma; div over callee contracts; zero refusal as a never-returns contract',
     text='exp(b,e) for all 64-bit (b,e) incl. e=0 and its termination, div/operator/ for all operands over the mul and inv contracts, and the refusal of inv on both representations of zero are proved. The functional contract of inv on non-zero operands is NOT proved by this check (assumed; see level_note).',
     note='inv(a)*a == 1 and termination of the Euclid loop are assumed, not proved (64-bit division/multiplication facts are beyond the available solvers); p prime assumed.')
+
+LEMMAS = ['pow_binary', 'powAux_eq']
+def extra_checks(rn, tier, ginfos):
+    from vf import lean
+    import os, json
+    r = lean.check_lemmas(LEMMAS)
+    if r.get('lean_failed'):
+        path = os.path.join(os.environ.get('VF_REPLAY_DIR', os.path.join(os.path.dirname(os.path.dirname(os.path.dirname(os.path.abspath(__file__)))), 'replay', 'out')), PROPERTY)
+        os.makedirs(path, exist_ok=True)
+        f = os.path.join(path, 'lean-lemmas.json')
+        json.dump(dict(property=PROPERTY, obligation='Lean lemmas ' + ', '.join(LEMMAS), verifier_output=r.get('lean_output', '')), open(f, 'w'), indent=1)
+        r['violations'] = ['VIOLATION property=%s replay=%s [Lean lemma no longer accepted] no-failing-input-found' % (PROPERTY, f)]
+    return r
